@@ -30,6 +30,9 @@ Proof.
   - intros d t p s H. destruct d; discriminate.
   - intros e t r kept s H. destruct e; discriminate.
   - intros t _. split; reflexivity.
+  - intros r p H. destruct r; cbn in H; destruct H.
+  - intros t sv r s H. discriminate.
+  - intros d t p H. destruct d; discriminate.
 Qed.
 
 Lemma init_ok c ths : Conc.cfg_ok view (Inv c) (init_cfg c ths).
@@ -86,3 +89,32 @@ Theorem hp_scan_frees_unguarded c ths cf :
     last_sb (firstn e (Conc.trace cf)) t = Some s ->
     forall p, In p kept -> seen_in (Conc.trace cf) s e p.
 Proof. intros H. destruct (reach_inv _ _ _ H) as (a & HI). exact (i_kept _ _ _ _ HI). Qed.
+
+(** ** C01, second sentence: the part that is about the SMR scheme.
+    Whatever a scan gives to the disposer had been passed to retire() before that scan began ... *)
+Theorem hp_dispose_after_retire c ths cf :
+  Conc.reach (init_cfg c ths) cf ->
+  forall d t p, nth_error (Conc.trace cf) d = Some (t, ev_dispose p) ->
+    exists s, last_sb (firstn d (Conc.trace cf)) t = Some s /\ retired_before (Conc.trace cf) s p.
+Proof. intros H. destruct (reach_inv _ _ _ H) as (a & HI). exact (i_pre _ _ _ _ HI). Qed.
+
+(** ... hence: if an object is disposed at step [d] although hazard slot (r,j) has held it at every step from
+    [g0] to [d], then the object had already been retired before [g0], i.e. before the guard was set.
+    (A guard that is set, by protect's load / store / re-load validation or by copying a guarded pointer, while
+    the object is still reachable from the validated source cannot come after retire() if the client retires
+    objects only after unlinking them: that last step is the client discipline of [hp_guarded_ptr_live_statement].) *)
+Theorem hp_guard_set_after_retire c ths cf :
+  Conc.reach (init_cfg c ths) cf ->
+  forall d t p g0 r j,
+    nth_error (Conc.trace cf) d = Some (t, ev_dispose p) -> p <> 0%Z ->
+    (cInplace c = true -> retire_once (firstn d (Conc.trace cf))) ->
+    held (firstn (S d) (Conc.trace cf)) g0 r j p ->
+    retired_before (Conc.trace cf) g0 p.
+Proof.
+  intros H d t p g0 r j Hd Hp Hro Hh.
+  destruct (hp_dispose_after_retire _ _ _ H d t p Hd) as (s & Hs & Hr).
+  destruct (Nat.le_gt_cases g0 s) as [Hle|Hgt].
+  - exfalso. apply (hp_no_dispose_while_guarded _ _ _ H d t p s Hd Hs Hro Hp r j).
+    eapply held_weaken; [exact Hle|exact Hh].
+  - eapply retired_before_mono; [|exact Hr]. lia.
+Qed.
